@@ -8,8 +8,8 @@
    ls_sol S Sx Sy Sxx Sxy q a b ua ub r  :=  a*S + b*Sx = Sy,  a*Sx + b*Sxx = Sxy,
      0 < D := S*Sxx - Sx^2,  ua^2 = q*Sxx/D,  ub^2 = q*S/D,  r*ua*ub = -q*Sx/D,  0 <= ua, ub
    i.e. (a,b) solves the (weighted) normal equations and (ua, ub, r) describe q (X^T W X)^-1. *)
-From Coq Require Import ZArith List Bool Reals Lra.
-From GTCV Require Import Num RNum Vector Opres KTypes Kernel FitLib LineFitA LineFitAFacts.
+From Coq Require Import ZArith List Bool Reals Lra Lia.
+From GTCV Require Import Num RNum Vector VectorFacts Opres KTypes Kernel LPU WS WSGroups FitLib LineFitA LineFitAFacts LineFitAPredict.
 From GTCV.gen Require Import Gen_type_a_fit.
 Import ListNotations.
 Local Open Scope R_scope.
@@ -144,23 +144,106 @@ Proof.
 Qed.
 Print Assumptions C13_predict_inputs.
 
-(* (8) REFUTED clauses (known findings, replayed on the implementation on every run):
-   LineFitWLS.y_from_x and LineFitRWLS.y_from_x never return a value ... *)
-Theorem C13_y_from_x_wls_rwls_refuted :
-  forall (st : fstate (T RNum)) (f : fit (T RNum)) x extra sl yl,
-  ft_cls f = CWLS \/ ft_cls f = CRWLS ->
-  exists e, snd (do_y_from_x RNum st f x extra sl yl) = OutExn e.
-Proof. exact y_from_x_never_returns. Qed.
-Print Assumptions C13_y_from_x_wls_rwls_refuted.
+(* (8) formerly REFUTED, now repaired in GTC/type_a.py (findings C13-wls-y_from_x-typeerror,
+   C13-rwls-y_from_x-typeerror, C13-rwls-y_from_x-scale are FIXED): the noise input of
+   LineFitWLS.y_from_x and LineFitRWLS.y_from_x is a dependent input of value 0 with u = s_y resp.
+   s_y*sqrt(ssr/df); they are total; and the RWLS scale agrees with the one x_from_y uses *)
+Theorem C13_y_from_x_wls_rwls_inputs :
+  (forall ssr df sy ps, g_WLS_y_from_x RNum ssr df sy = Ok ps ->
+     ps_x ps = 0 /\ ps_u ps = sy /\ ps_indep ps = Some false) /\
+  (forall ssr d sy ps, g_RWLS_y_from_x RNum ssr (DFin d) sy = Ok ps ->
+     ps_x ps = 0 /\ ps_u ps = sy * sqrt (ssr / d) /\ 0 <= ssr / d /\ ps_indep ps = Some false) /\
+  (forall ssr df sy, exists ps, g_WLS_y_from_x RNum ssr df sy = Ok ps) /\
+  (forall ssr d sy, d <> 0 -> 0 <= ssr / d ->
+     (exists ps, g_OLS_y_from_x RNum ssr (DFin d) = Ok ps) /\ (exists ps, g_RWLS_y_from_x RNum ssr (DFin d) sy = Ok ps)).
+Proof.
+  split; [exact wls_y_from_x_input|]. split; [exact rwls_y_from_x_input|].
+  split; [exact wls_y_from_x_total|exact y_from_x_total].
+Qed.
+Print Assumptions C13_y_from_x_wls_rwls_inputs.
 
-(* ... and the RWLS noise scale sqrt(s_y*ssr/df) is not the s_y*sqrt(ssr/df) of x_from_y *)
-Theorem C13_rwls_scale_refuted :
-  exists ssr d sy ps1 ps2,
-    g_RWLS_y_from_x RNum ssr (DFin d) sy = Ok ps1 /\
-    g_RWLS_x_from_y RNum ssr (DFin d) [0] sy = Ok ps2 /\
-    ps_u ps1 = 2 /\ ps_u ps2 = 4.
-Proof. exact rwls_scale_refuted. Qed.
-Print Assumptions C13_rwls_scale_refuted.
+Theorem C13_rwls_scale_consistent :
+  forall ssr d sy y0 ps1 ps2,
+    g_RWLS_y_from_x RNum ssr (DFin d) sy = Ok ps1 ->
+    g_RWLS_x_from_y RNum ssr (DFin d) [y0] sy = Ok ps2 ->
+    ps_u ps1 = ps_u ps2.
+Proof. exact rwls_scale_consistent. Qed.
+Print Assumptions C13_rwls_scale_consistent.
+
+(* (9) dof through the ensemble: a number whose dependent components all belong to real members
+   of ONE ensemble E of finite dof d (and which has no independent components) has dof d *)
+Theorem C13_one_ensemble_dof :
+  forall (s : KTypes.state R) (E : list key) (d : R), E <> [] -> d <> 0 ->
+  forall (o : KTypes.ureal R) c,
+    unode o = NoNode -> uc o = [] -> dc o <> [] -> in_ens s E d (dc o) -> vtot s (dc o) <> 0 ->
+    exists var, welch_satterthwaite RNum s o c = Ok (var, DFin d, c) /\ var = vtot s (dc o).
+Proof. exact one_ensemble_dof. Qed.
+Print Assumptions C13_one_ensemble_dof.
+
+(* (10) y_from_x(x = v) with a plain number, for LineFitOLS, LineFitWLS and LineFitRWLS alike.
+   In a state where the fit's a and b are dependent elementary inputs (values xa, xb; u ua, ub) of
+   dof d >= 1 in one ensemble E0 and the next uid kn is unused: the step declares the noise input
+   (value 0, u = noise_u: sqrt(ssr/d) | s_y | s_y*sqrt(ssr/d), dof d, dependent), appends it to the
+   ensemble seen through a, b and itself, and returns y with value xa + xb*v + 0, no independent
+   components, components of uncertainty ua, v*ub, u(noise) w.r.t. a, b, noise, and - when its
+   variance is not 0 - dof d: the fit's dof is kept. *)
+Theorem C13_y_from_x_predicts :
+  forall (s : KTypes.state (T RNum)) (f : fit (T RNum)) (xa ua xb ub d : R) (ka kb : key)
+         (ca cb : option (T RNum)) (la lb : leaf (T RNum)) (E0 : list key) extra ps v fits,
+  let kn := (s_ctx s, (s_ne s + 1)%Z) in
+  nth_error (s_slots s) (ft_a f) = Some (SReal (dep_input xa ka ua) ca) ->
+  nth_error (s_slots s) (ft_b f) = Some (SReal (dep_input xb kb ub) cb) ->
+  Kernel.assoc (s_leaves s) ka = Some la -> Kernel.assoc (s_leaves s) kb = Some lb ->
+  l_indep la = false /\ l_df la = DFin d /\ l_cplx la = None ->
+  l_indep lb = false /\ l_df lb = DFin d /\ l_cplx lb = None ->
+  l_ens lb = l_ens la -> (l_ens la < length (s_ens s))%nat -> nth (l_ens la) (s_ens s) [] = E0 ->
+  kmem ka E0 = true -> kmem kb E0 = true -> Kernel.assoc (s_leaves s) kn = None -> 1 <= d ->
+  pred_spec_y RNum (ft_cls f) (ft_ssr f) (DFin d) extra = Ok ps ->
+  (forall sy, extra = Some sy -> 0 <= sy) ->
+  let un := noise_u (ft_cls f) (ft_ssr f) d extra in
+  exists s1 nz y,
+    let s2 := push RNum s1 (SReal nz None) in
+    let s3 := push RNum s2 (SReal y None) in
+    nz = dep_input 0 kn un /\
+    snd (do_y_from_x RNum (mkF s fits) f (ANum v) extra None None) =
+      OutList [leaf_out RNum s3 nz; leaf_out RNum s3 (dep_input xa ka ua); dump RNum y] /\
+    ux y = xa + xb * v + 0 /\ uc y = [] /\ unode y = NoNode /\
+    (forall k, get0 (N:=RNum) (dc y) k =
+               (if keqb k ka then ua else 0) + (if keqb k kb then v * ub else 0) + (if keqb k kn then un else 0)) /\
+    (exists ln, leaf_of RNum s2 kn = Ok ln /\ l_u ln = un /\ l_df ln = DFin d /\ l_indep ln = false /\
+                ens_of RNum s2 ln = kinsert kn E0 /\ ens_of RNum s2 la = kinsert kn E0 /\ ens_of RNum s2 lb = kinsert kn E0) /\
+    (vtot s2 (dc y) <> 0 ->
+     exists var, welch_satterthwaite RNum s2 y None = Ok (var, DFin d, None) /\ var = vtot s2 (dc y)).
+Proof. exact y_from_x_all_classes. Qed.
+Print Assumptions C13_y_from_x_predicts.
+
+(* non-vacuity of (10): a WLS fit object (a = 1 +- 1/2, b = 2 +- 1/4, dof 4, one ensemble) and s_y = 1/2 *)
+Definition pk1 : key := (1%Z, 1%Z).
+Definition pk2 : key := (1%Z, 2%Z).
+Definition p_la : leaf (T RNum) := mkLeaf (/ 2) (DFin 4) false [(pk1, 1); (pk2, / 2)] 2%nat None None.
+Definition p_lb : leaf (T RNum) := mkLeaf (/ 4) (DFin 4) false [(pk2, 1); (pk1, / 2)] 2%nat None None.
+Definition p_state : KTypes.state (T RNum) :=
+  mkS 1%Z 2%Z 0%Z [(pk1, p_la); (pk2, p_lb)] [] [[]; []; [pk1; pk2]]
+      [SReal (dep_input 1 pk1 (/ 2)) None; SReal (dep_input 2 pk2 (/ 4)) None].
+Definition p_fit : fit (T RNum) := mkFit CWLS 0%nat 1%nat 3 5%Z.
+
+Example C13_predict_nonvacuous :
+  nth_error (s_slots p_state) (ft_a p_fit) = Some (SReal (dep_input 1 pk1 (/ 2)) None) /\
+  nth_error (s_slots p_state) (ft_b p_fit) = Some (SReal (dep_input 2 pk2 (/ 4)) None) /\
+  Kernel.assoc (s_leaves p_state) pk1 = Some p_la /\ Kernel.assoc (s_leaves p_state) pk2 = Some p_lb /\
+  (l_indep p_la = false /\ l_df p_la = DFin 4 /\ l_cplx p_la = None) /\
+  (l_indep p_lb = false /\ l_df p_lb = DFin 4 /\ l_cplx p_lb = None) /\
+  l_ens p_lb = l_ens p_la /\ (l_ens p_la < length (s_ens p_state))%nat /\
+  nth (l_ens p_la) (s_ens p_state) [] = [pk1; pk2] /\
+  kmem pk1 [pk1; pk2] = true /\ kmem pk2 [pk1; pk2] = true /\
+  Kernel.assoc (s_leaves p_state) (s_ctx p_state, (s_ne p_state + 1)%Z) = None /\ 1 <= 4 /\
+  pred_spec_y RNum (ft_cls p_fit) (ft_ssr p_fit) (DFin 4) (Some (/ 2)) = Ok (mkPS 0 (/ 2) (Some false)) /\
+  (forall sy, Some (/ 2) = Some sy -> 0 <= sy).
+Proof.
+  repeat split; try reflexivity; try (simpl; lia); try lra.
+  intros sy H. injection H as <-. lra.
+Qed.
+Print Assumptions C13_predict_nonvacuous.
 
 (* non-vacuity: a concrete data set meeting the hypotheses of the totality theorems *)
 Definition ex_l : list pt := [(0, 1, 1); (1, 3, 2); (2, 2, 1); (4, 6, / 2)].
